@@ -61,6 +61,9 @@ DevEnabled(d, n, o, k, ca) ==
     [] d = "Dev_MixedQuotesRaw"        -> Has(n, "sq") /\ Has(n, "dq") /\ (Has(n, "dl") \/ Has(n, "bs"))
     [] d = "Dev_ControlWithDollar"     -> HasAny(n, Ctrl) /\ Has(n, "dl") /\ o \in {"none", "sq", "dq"}
     [] d = "Dev_EmptyQuotesNotContinued" -> ca = "after" /\ k = 0 /\ o # "none"
+    \* inside a quote the user opened, a `|` or `;` among the typed characters with more typed text after
+    \* it still splits the line for the analyser: only the part after it is taken for the word to complete
+    [] d = "Dev_OpenQuoteSeparatorCutsWord" -> o # "none" /\ \E i \in 1..Len(n) : i < k /\ n[i] \in {"pipe", "semi"}
     [] OTHER -> FALSE
 
 \* the analyser: for any text and cursor a context (or none) whose prefix and suffix reproduce the text
@@ -85,7 +88,7 @@ Complete(n, o, k, ca) ==
      \/ \E d \in Deviations : DevEnabled(d, n, o, k, ca) /\ res' = [ok |-> FALSE, dev |-> d]
 
 Next == \/ name = <<>> /\ \E io \in BOOLEAN, ok \in BOOLEAN : Analyse([inside_op |-> io], ok)
-        \/ name = <<>> /\ \E n \in Names, o \in Opens, k \in 0..1, ca \in {"no", "after", "closed"} : Complete(n, o, k, ca)
+        \/ name = <<>> /\ \E n \in Names, o \in Opens, k \in 0..2, ca \in {"no", "after", "closed"} : Complete(n, o, k, ca)
 Spec == Init /\ [][Next]_vars
 
 (* ---- properties -------------------------------------------------------------------------- *)
